@@ -89,31 +89,29 @@ fn restrict_status(s: &Status, keys: &[String]) -> Status {
 fn restrict_end(e: &End, keys: &[String]) -> End {
     match e {
         End::Ok => End::Ok,
+        End::Unread => End::Unread,
         End::Err(s) => End::Err(restrict_status(s, keys)),
     }
 }
 
 pub fn run_case(out: &mut Out, kind: &str, c: &CallCase) {
     let seen = Arc::new(Mutex::new(Seen::NotCalled));
-    let h = H { handler: Arc::new(c.handler.clone()), seen: seen.clone() };
+    let h = H { handler: Arc::new(c.handler.clone()), seen: seen.clone(), reads: c.reads, sv: Arc::new(c.sv.clone()) };
     let rt = tokio::runtime::Builder::new_current_thread().enable_time().build().unwrap();
     let res = rt.block_on(async { tokio::time::timeout(Duration::from_secs(20), one_call(c, h)).await });
     drop(rt);
     let seen = seen.lock().unwrap().clone();
     let keys = user_keys(c);
     let fuel = 16 + c.req.len() + match &c.handler { Handler::Ok(_, i) => i.len(), _ => 0 };
-    let hexpr = match &c.handler {
-        Handler::Ok(md, items) => format!("(inl ({}, {}))", coq_hm(&metadata_of(md).into_headers()), coq_list(items, |i| item_coq(i))),
-        Handler::Err(s) => format!("(inr {})", st_coq(s)),
-    };
-    let req: Vec<Item> = if c.req_streaming() { c.req.clone() } else { vec![Item::Ok(first_req_msg(c))] };
     let model = format!(
-        "obs_call_h2 {} {} {} {} {} {}",
+        "obs_call_h2 {} {} {} {} {} {} {} {}",
         coq_list(&keys, |k| coq_bytes(k.as_bytes())),
+        sides_expr(c),
         c.shape,
-        coq_hm(&metadata_of(&c.md).into_headers()),
-        coq_list(&req, |i| item_coq(i)),
-        hexpr,
+        coq_md(&c.md),
+        req_expr(c),
+        coq_opt(&c.reads, |n| n.to_string()),
+        handler_expr(c),
         fuel
     );
     let (obs, oracle) = match res {
@@ -121,6 +119,7 @@ pub fn run_case(out: &mut Out, kind: &str, c: &CallCase) {
         Ok(Err(e)) => (Tr::L(vec![Tr::L(vec![Tr::n(9u8)]), Tr::L(vec![Tr::n(9u8)])]), Some(e)),
         Ok(Ok(r)) => {
             let o = if in_domain(c) { judge(c, &r, &seen) } else { None };
+            let o = if kind.ends_with("client_max_encoding") { o.map(|w| format!("F-C06b: over a real HTTP/2 connection {}", w)) } else { o };
             let rr = match &r {
                 ClientResult::Err(s) => ClientResult::Err(restrict_status(s, &keys)),
                 ClientResult::Unary(md, m) => ClientResult::Unary(restrict(md, &keys), m.clone()),
@@ -131,31 +130,42 @@ pub fn run_case(out: &mut Out, kind: &str, c: &CallCase) {
                 Seen::Unary(md, m) => Seen::Unary(restrict(md, &keys), m.clone()),
                 Seen::Stream(md, ms, e) => Seen::Stream(restrict(md, &keys), ms.clone(), restrict_end(e, &keys)),
             };
-            (Tr::L(vec![result_tr_pub(&rr), seen_tr_pub(&ss)]), o)
+            let rejected = if matches!(seen, Seen::NotCalled) { reject_code(&r) } else { None };
+            (Tr::L(vec![result_tr_pub(&rr), seen_tr_code(&ss, rejected)]), o)
         }
     };
     describe(out, "h2", c);
     out.push(vcommon::Case { kind: kind.to_string(), input: case_json(c), model, impl_obs: obs, oracle, nontrivial: true });
 }
 
-pub fn run_all(out: &mut Out, r: &mut Rng) {
+/// when the handler was not called the server answered with a status of its own: its code is
+/// what the client got
+fn reject_code(r: &ClientResult) -> Option<u32> {
+    match r {
+        ClientResult::Err(s) => Some(s.code() as i32 as u32),
+        _ => None,
+    }
+}
+pub fn run_all(out: &mut Out, r: &mut Rng, thorough: bool) {
+    // the quick tier runs a small subset so that the committed evidence contains h2 cases
+    let codes: Vec<u32> = if thorough { (1..17).collect() } else { vec![3, 5, 14] };
     for shape in 0..4u8 {
-        for code in 1..17u32 {
+        for &code in &codes {
             run_case(out, "h2.early", &plain(gen_case(r, shape, 0, Some((0, code)), true, false)));
             if shape >= 2 {
-                for k in [0usize, 1, 3, 5] {
+                for k in if thorough { vec![0usize, 1, 3, 5] } else { vec![0usize, 3] } {
                     let p = (code as usize + k) % (k + 1);
                     run_case(out, "h2.stream_err", &plain(gen_case(r, shape, k, Some((p, code)), false, false)));
                 }
             }
         }
         for k in 0..6usize {
-            for _ in 0..8 {
+            for _ in 0..(if thorough { 8 } else { 1 }) {
                 run_case(out, "h2.ok", &plain(gen_case(r, shape, k, None, false, false)));
             }
         }
         // larger payloads, so that h2 flow control really cuts the bodies
-        for _ in 0..10 {
+        for _ in 0..(if thorough { 10 } else { 2 }) {
             let mut c = plain(gen_case(r, shape, 3, None, false, false));
             for i in c.req.iter_mut() {
                 if let Item::Ok(m) = i {
@@ -170,6 +180,48 @@ pub fn run_all(out: &mut Out, r: &mut Rng) {
                 }
             }
             run_case(out, "h2.big", &c);
+        }
+        // limits configured on the two Grpc's: server side limits and the client's receiving limit
+        limits_for_shape(out, r, shape, thorough, false);
+        // compression over h2
+        for _ in 0..(if thorough { 12 } else { 2 }) {
+            run_case(out, "h2.compress", &plain(gen_compress_case(r, shape)));
+        }
+    }
+    // the handler answers before it has read its request stream
+    for _ in 0..(if thorough { 120 } else { 12 }) {
+        let shape = if r.chance(1, 2) { 1 } else { 3 };
+        let err = r.chance(1, 2);
+        run_case(out, "h2.interleave", &plain(gen_interleave_case(r, shape, err)));
+    }
+}
+fn limits_for_shape(out: &mut Out, r: &mut Rng, shape: u8, thorough: bool, client_enc: bool) {
+    // which = 1 (the client's max_encoding_message_size over a real connection) is the KNOWN
+    // finding F-C06b: the caller gets INTERNAL "h2 protocol error" instead of OUT_OF_RANGE; it is
+    // registered for C06 and therefore runs under ./check C06 (--limits-only) only
+    for which in [0u8, 1, 2, 3] {
+        if which == 1 && !client_enc {
+            continue;
+        }
+        for (l, len) in [(5usize, 5usize), (5, 6), (100, 101)] {
+            if !thorough && l == 100 {
+                continue;
+            }
+            let c = plain(gen_limit_case(r, shape, which, l, len, 1));
+            run_case(out, &format!("h2.{}", limit_kind(which, shape)), &c);
+        }
+    }
+}
+pub fn run_limits(out: &mut Out, r: &mut Rng, thorough: bool) {
+    // corpus witness of F-C06b first: max_encoding_message_size(5), one 6-byte unary request
+    let mut w = plain(gen_limit_case(&mut Rng::new(7), 0, 1, 5, 6, 0));
+    w.md = vec![];
+    w.handler = Handler::Ok(vec![], vec![Item::Ok(vec![])]);
+    w.sv.via_apply = false;
+    run_case(out, "corpus.h2.limit.client_max_encoding", &w);
+    for _ in 0..(if thorough { 6 } else { 1 }) {
+        for shape in 0..4u8 {
+            limits_for_shape(out, r, shape, true, true);
         }
     }
 }
